@@ -113,6 +113,7 @@ int main() {
     {1, {{29,10,39,17},{0,0,0,0}}, 18, 23, ConnDirDown, 40, 30, ConnDirAll, "one obstacle, source leaves downwards"},
     {2, {{-10,-10,-4,6},{14,0,24,12}}, 0, 20, ConnDirAll, 6, 10, ConnDirUp, "two shapes, target entered from above"},
     {2, {{-10,-10,-4,6},{14,0,24,12}}, 0, 20, ConnDirLeft, 30, -4, ConnDirAll, "two shapes, source leaves to the left"},
+    {1, {{100,100,200,200},{0,0,0,0}}, 100, 140, ConnDirAll, 300, 140, ConnDirAll, "source exactly on the obstacle's border, target beyond the obstacle"},
   };
   int bad = 0;
   for (size_t s = 0; s < sizeof(scenes) / sizeof(scenes[0]); ++s) {
@@ -357,6 +358,31 @@ def jobs(tier):
             j.replay = replay_layout
             j.note = (j.note + " " if j.note else "") + "[job of the C17 check, run here as well: johnsons hands dijkstra rows from a bare new T[n]]"
             js.append(j)
+    # ---------------- libavoid scan line: Node::firstPointAbove / firstPointBelow are MIRROR TWINS -- looking down in a scene is looking up in the mirrored scene.
+    #                  The visibility limits of connector end points come from these two; a twin that treats the boundary case differently (an obstacle edge exactly
+    #                  at the point's coordinate) makes a route's cost depend on the frame.  Whole real functions, chains of up to 2 nodes (bounded).
+    SL = "libavoid/scanline.cpp"
+    fpa = slice_func(SL, r'^double Node::firstPointAbove\(size_t dim\)', "Node::firstPointAbove")
+    fpb = slice_func(SL, r'^double Node::firstPointBelow\(size_t dim\)', "Node::firstPointBelow")
+    nmem = slice_lines("libavoid/scanline.h", r'^    (double pos;|double min\[2\], max\[2\];|Node \*firstAbove, \*firstBelow;)$', 4, "Node data members (scanline.h)")
+    fp_cxx = ("#include <verif_base.h>\n#include <cfloat>\n#include <algorithm>\n"
+              "namespace Avoid {\n// stand-in with the data members the two functions read (their declaration in scanline.h is matched textually)\n"
+              "class Node { public: double pos; double min[2], max[2]; Node *firstAbove, *firstBelow; double firstPointAbove(size_t dim); double firstPointBelow(size_t dim); };\n" +
+              fpa.text + "\n" + fpb.text + "\n}\n"
+              "static Avoid::Node verif_self, verif_n[2];\n"
+              "// scene: the point (pos along dim, selfAlt across) and a chain of k obstacles [lo,hi] x [alo,ahi]; up != 0: chain hangs off firstAbove, else off firstBelow\n"
+              'extern "C" double w_first_point(int up, unsigned dim, unsigned k, double pos, double selfAlt, double lo0, double hi0, double alo0, double ahi0, double lo1, double hi1, double alo1, double ahi1) {\n'
+              "  unsigned alt = (dim + 1) % 2; double LO[2] = {lo0, lo1}, HI[2] = {hi0, hi1}, ALO[2] = {alo0, alo1}, AHI[2] = {ahi0, ahi1};\n"
+              "  verif_self.pos = pos; verif_self.min[alt] = selfAlt; verif_self.max[alt] = selfAlt; verif_self.min[dim] = pos; verif_self.max[dim] = pos;\n"
+              "  for (unsigned i = 0; i < 2; ++i) { verif_n[i].min[dim] = LO[i]; verif_n[i].max[dim] = HI[i]; verif_n[i].min[alt] = ALO[i]; verif_n[i].max[alt] = AHI[i]; verif_n[i].pos = LO[i];\n"
+              "    verif_n[i].firstAbove = (up && i + 1 < k) ? &verif_n[i + 1] : 0; verif_n[i].firstBelow = (!up && i + 1 < k) ? &verif_n[i + 1] : 0; }\n"
+              "  verif_self.firstAbove = (up && k > 0) ? &verif_n[0] : 0; verif_self.firstBelow = (!up && k > 0) ? &verif_n[0] : 0;\n"
+              "  return up ? verif_self.firstPointAbove(dim) : verif_self.firstPointBelow(dim); }\n")
+    js.append(Job("scanline_first_point_twins_mirror", "B", spec, "h_first_point", cxx=fp_cxx, defines=["JOB_first_point"], slices=[fpa, fpb, nmem], unwind=4, replay=replay_frames,
+                  flags=["--sat-solver", "cadical"], backend="sat:cadical", timeout=600,
+                  bound="chains of 0 to 2 obstacle nodes (loops unwound 4 times with unwinding assertions)",
+                  domain="both dimensions, every position and every obstacle extent (all doubles but NaN)",
+                  expect=[r'h_first_point\.assertion']))
     return js
 
 
@@ -372,6 +398,8 @@ ASSUMPTIONS = [
     "offsetDir: the declaration of `random` is taken verbatim from cola.h and the frame condition is checked by goto-instrument's assigns instrumentation; sqrt is an "
     "uninterpreted function there; getNext is assumed as `seed' = f(seed)` for an uninterpreted f (its enforced contract is the instance f = the documented LCG step)",
     "distance_row_fully_written is C17's BOUNDED dijkstra job (3 nodes): an entry of the distance row that dijkstra does not write is heap garbage (johnsons allocates rows with a bare new T[n])",
+    "scanline_first_point_twins_mirror is a BOUNDED stand-in (chains of 0 to 2 obstacle nodes; Node is a stand-in with the data members the two functions read): Node::firstPointBelow in the mirrored scene "
+    "equals minus Node::firstPointAbove in the scene, boundary cases included, and firstPointAbove is the greatest obstacle edge at or before the point (in-line obstacles ignored)",
     "NOT decided (residue): bit-identical whole routes/layouts, scene symmetries and translation invariance of whole routes, permutation independence of VPSC, uninitialised reads outside the constructors covered by C15",
 ]
 EXPLANATION = ("Value-determinism of the ordering kernels through which allocation addresses could reach results: each comparator's result is proved to be a stated function of "
